@@ -224,6 +224,15 @@ def run_cases(rep, cases):
                     sat[i] = a["sat"]
         except Exception:  # noqa: BLE001
             pass
+    # the Lean model of the polars container pipeline (Polars.lean) for the cases without parsing options
+    plm = {}
+    if spec_cases:
+        try:
+            for i, a in zip(idx, run_driver("C08", [{"schema": x["schema"], "frame": x["frame"]} for x in spec_cases])):
+                if "errors" in a and a.get("wf"):
+                    plm[i] = a
+        except Exception as e:  # noqa: BLE001
+            rep.notes.append(f"polars model driver unavailable: {type(e).__name__}")
     for i, c in enumerate(cases):
         if not in_scope(c):
             rep.count("out-of-scope")
@@ -231,6 +240,8 @@ def run_cases(rep, cases):
         S, D = c["schema"], c["frame"]
         pd_obs = observe_pandas(S, D)
         pl_obs = observe_polars(S, D)
+        if i in plm and pl_obs["verdict"] in ("ok", "reject"):
+            compare_polars_model(rep, c, plm[i], pl_obs, region_of(c, pd_obs, pl_obs))
         rep.case(c, nontrivial=D["nrows"] > 0)
         rep.count(f"verdicts:{pd_obs['verdict'].split(':')[0]}/{pl_obs['verdict'].split(':')[0]}")
         if pl_obs["verdict"].startswith("unbuildable"):
@@ -263,6 +274,33 @@ def run_cases(rep, cases):
                 rep.count("outputs-equal")
         if i in sat and pd_obs["verdict"] in ("ok", "reject") and (pd_obs["verdict"] == "ok") != sat[i] and region is None:
             rep.correspondence_break(c, f"both backends say {pd_obs['verdict']}, Lean's Sat says {sat[i]}")
+
+
+MODEL_KIND = {"seriesContainsNulls": "nullable", "seriesContainsDuplicates": "unique", "dataframeCheck": "check",
+              "duplicates": "unique"}
+
+
+def compare_polars_model(rep, c, a, pl_obs, region):
+    """the real polars backend against the Lean model of its pipeline (`Polars.frameErrors`): verdict, row-level
+    failing cells, and which columns carry a dtype / check-error / presence / strictness error"""
+    rep.count("polars-model:compared")
+    want = "ok" if a["accepts"] else "reject"
+    if pl_obs["verdict"] != want:
+        if region is None:
+            rep.correspondence_break(c, f"polars backend says {pl_obs['verdict']}, the Lean model of the polars pipeline {want}",
+                                     detail={"model": a["errors"][:3], "impl": pl_obs})
+        return
+    if want == "ok":
+        return
+    cells = sorted({(str(x["col"]), int(x["pos"]), MODEL_KIND[e["reason"]]) for e in a["errors"]
+                    if e["reason"] in MODEL_KIND and e["reason"] != "duplicates" for x in e["cells"]})
+    impl_cells = sorted((col, ix, k) for col, ix, k in map(tuple, pl_obs["cells"]))
+    joint = any(e["reason"] == "duplicates" for e in a["errors"])
+    if cells != impl_cells and not joint and region is None:
+        rep.correspondence_break(c, f"polars failing cells {impl_cells[:5]} differ from the Lean model's {cells[:5]}",
+                                 detail={"model": a["errors"][:3], "impl": pl_obs})
+    else:
+        rep.count("polars-model:cells-equal")
 
 
 def builtin_sweep(rep, rng, n):
